@@ -247,6 +247,8 @@ class Paths:
                                 continue  # `&mut local`: the callee can only change a local of this function
                         if ptr_root(po.operand(a, k, n))[0] in ("param", "upvar", "unknown", "loop", "callind"):
                             ext = True
+                        elif fn.kind == "closure" and not pl["p"] and _borrows_closure_state(blk, pl["l"]):
+                            ext = True   # `&mut (*_1).k`: the callee changes state the closure keeps between calls
                 ev.append(("call", node, ext, _ret_ty(fn.body, t)))
             elif t["k"] == "switch" and k + 1 < len(path):
                 nxt = path[k + 1]
@@ -805,6 +807,15 @@ def _paths_once(cfg, limit, partial):
         onpath.discard(b)
     rec(0, [], set())
     return out
+
+
+def _borrows_closure_state(blk, l):
+    """is local l assigned `&mut (*_1)...` (a captured variable of the closure) in this block?"""
+    for s in reversed(blk["s"]):
+        if s["k"] == "assign" and s["place"]["l"] == l and not s["place"]["p"]:
+            rv = s["rv"]
+            return rv["k"] == "ref" and bool(rv.get("mut")) and rv["place"]["l"] == 1 and "*" in rv["place"]["p"]
+    return False
 
 
 def _has_mut_ref(ty, depth=0):
